@@ -436,6 +436,35 @@ func (c *Case) Preprocess() (parser.Expr, error) {
 // as step-invariant: its window slides with the step, over whatever the storage happens to return
 // outside the range that was selected (one querier for the whole query in the reference engine,
 // one per selector in this one). What comes out is not determined by the query and the data.
+// inclUnderJoin: the output of a join with include labels - whose label sets repeat label names
+// (known finding on include labels) - is an operand of another vector-to-vector operator. Matching
+// on label sets with repeated names goes through hashing and builder code that assumes sorted,
+// unique names; the model does not follow the engine there.
+func inclUnderJoin(e parser.Expr) bool {
+	hasIncl := func(x parser.Expr) bool {
+		f := false
+		parser.Inspect(x, func(n parser.Node, _ []parser.Node) error {
+			if b, ok := n.(*parser.BinaryExpr); ok && b.VectorMatching != nil && len(b.VectorMatching.Include) > 0 {
+				f = true
+			}
+			return nil
+		})
+		return f
+	}
+	found := false
+	parser.Inspect(e, func(n parser.Node, _ []parser.Node) error {
+		b, ok := n.(*parser.BinaryExpr)
+		if !ok || b.LHS.Type() != parser.ValueTypeVector || b.RHS.Type() != parser.ValueTypeVector {
+			return nil
+		}
+		if hasIncl(b.LHS) || hasIncl(b.RHS) {
+			found = true
+		}
+		return nil
+	})
+	return found
+}
+
 // includesName: a group_left / group_right whose include list names `__name__`: the engine appends
 // the one side's name label to the output (known finding on include labels), which then carries
 // two name labels; what later operators do to such a label set (the engine drops the first name
